@@ -413,8 +413,13 @@ def chordLoop (startStep endStep : Int) :
       | .error e => .error e
       | .ok ev' => chordLoop startStep endStep cs (some c.qstep) c.text ev'
 
+/-- key `(chord.quantized_step, chord.time)` (tuple order) -/
+def chordLe (a b : TextAnn) : Bool := a.qstep < b.qstep || (a.qstep == b.qstep && a.time ≤ b.time)
+
+/-- `sorted([a for a in text_annotations if a.annotation_type == CHORD_SYMBOL],
+key=lambda chord: (chord.quantized_step, chord.time))` (stable) -/
 def chordAnns (s : NoteSeq) : List TextAnn :=
-  sortByInt (·.qstep) (s.texts.filter (fun a => a.kind == Gen.CHORD_SYMBOL))
+  (s.texts.filter (fun a => a.kind == Gen.CHORD_SYMBOL)).mergeSort chordLe
 
 /-- after the loop: `if prev_step is None or prev_step < end_step: _add_chord(prev_figure, …, end_index)` -/
 def chordFinish (startStep endStep : Int) (ps : Option Int) (pf : String) (ev : List String) :
@@ -476,8 +481,9 @@ def lastOnOff (ev : List Int) : Option (Nat × Nat) := lastOnOffRev ev.reverse e
 def melSel (searchStart inst : Int) (filterDrums : Bool) (n : Note) : Bool :=
   n.instrument == inst && searchStart ≤ n.qs && !(filterDrums && n.isDrum) && n.velocity != 0
 
-/-- key `(quantized_start_step, -pitch)` -/
-def melLe (a b : Note) : Bool := a.qs < b.qs || (a.qs == b.qs && b.pitch ≤ a.pitch)
+/-- key `(quantized_start_step, -pitch, start_time)` (tuple order) -/
+def melLe (a b : Note) : Bool :=
+  a.qs < b.qs || (a.qs == b.qs && (b.pitch < a.pitch || (b.pitch == a.pitch && a.start ≤ b.start)))
 
 /-- the loop over the sorted notes; the result is `self._events` when the loop ends or breaks -/
 def melLoop (filterDrums ignorePoly : Bool) (gapSteps mstart : Int) :
